@@ -48,10 +48,13 @@ def truncation(repo, run):
     if not okk:
         run.report("C09.1", DS, order_st.value, "the roots are ordered by a key of kind %s, not by sign(t_next - t_prev) * root: for backward steps the order is reversed, so the "
                                                 "'first' terminal event is the LAST one met and the events before the true stop are dropped" % (kkey,))
-    # any(is_terminal[active]) block
+    # any(is_terminal[active]) block  (locals such as `flags = is_terminal[active_events]` are inlined)
+    from ..sym import inline_locals
+    env = inline_locals(fn)
+    c = Canon(env=env)
     term_if = None
     for st in ast.walk(fn):
-        if isinstance(st, ast.If) and "is_terminal" in src(st.test):
+        if isinstance(st, ast.If) and "is_terminal[" in c.text(st.test):
             term_if = st
     if term_if is None:
         raise AnalysisError("anchor missing: terminal-event test in handle_events")
@@ -72,19 +75,22 @@ def truncation(repo, run):
     if not (ok and okp):
         run.report("C09.1", DS, order_st, "the ordering along the direction of integration does not precede the terminal truncation for all of "
                                           "(active_events, roots, evs): the 'earliest' terminal event would be chosen in storage order")
-    # first terminal index
+    # first terminal index: nonzero(is_terminal[active])[0][0]
     idx_st = None
     for st in term_if.body:
-        if isinstance(st, ast.Assign) and isinstance(st.targets[0], ast.Name) and "nonzero" in src(st.value):
+        if isinstance(st, ast.Assign) and isinstance(st.targets[0], ast.Name) and "nonzero" in c.text(st.value) and \
+                c.text(st.value).replace(" ", "").endswith("[0][0]") and idx_st is None:
             idx_st = st
-    okidx = idx_st is not None and src(idx_st.value).replace(" ", "").endswith("[0][0]") and "is_terminal[%s]" % act in src(idx_st.value)
+    itext = c.text(idx_st.value).replace(" ", "") if idx_st is not None else ""
+    okidx = idx_st is not None and itext.endswith("[0][0]") and "is_terminal[%s]" % act in c.text(idx_st.value)
     run.judged(rid, "first terminal position: %s" % (src(idx_st) if idx_st else "<missing>"), ok=okidx)
     if not okidx:
         run.report("C09.1", DS, idx_st or term_if, "the truncation index is not the FIRST terminal event among the ordered active events")
         return
     iname = idx_st.targets[0].id
-    c = Canon()
-    want = Poly.atom(iname) + Poly.const(1)
+    # compare slice bounds with (index expression) + 1, both canonicalised with the same inlining
+    want = c.poly(idx_st.value) + Poly.const(1)
+    want_alt = Poly.atom(iname) + Poly.const(1)
     cut = {}
     for st in term_if.body:
         if isinstance(st, ast.Assign) and isinstance(st.value, ast.Subscript) and isinstance(st.value.slice, ast.Slice):
@@ -93,7 +99,7 @@ def truncation(repo, run):
             if src(st.value.value) == tn and sl.lower is None and sl.step is None and sl.upper is not None:
                 cut[tn] = (c.poly(sl.upper), st)
     for name in (act, roots, evs):
-        ok1 = name in cut and cut[name][0] == want
+        ok1 = name in cut and cut[name][0] in (want, want_alt)
         run.judged(rid, "truncation of %s: %s" % (name, src(cut[name][1]) if name in cut else "<missing>"), ok=ok1)
         if not ok1:
             run.report("C09.1", DS, cut[name][1] if name in cut else term_if,
